@@ -150,6 +150,9 @@ class Lexer:
         if self.current_char != "[":
             self.error("Malformed long bracket")
         self.advance()
+        # a newline directly after the opening bracket is not part of the content
+        if self.current_char == "\n":
+            self.advance()
         inner_string: str = ""
         # closing_equals is zero on an encountered closing bracket, and will be incremented with each equals sign
         closing_equals: int = -1
